@@ -31,6 +31,12 @@ type scanPath struct {
 	errCtx     string   // context string / code of the raised error
 	lookahead  []string // data.Byte(index+k) reads
 	retVal     string
+	fieldStores []fieldStore
+}
+
+type fieldStore struct {
+	name string
+	val  absint.Val
 }
 
 func (p *scanPath) String() string {
@@ -274,6 +280,7 @@ func (m *scanModel) project(o absint.Outcome) scanPath {
 				p.unfinished = e.Args[0].Key()
 			default:
 				p.stores = append(p.stores, field+"="+e.Args[0].Key())
+				p.fieldStores = append(p.fieldStores, fieldStore{field, e.Args[0]})
 			}
 		case "call":
 			switch {
